@@ -67,6 +67,14 @@ func (m *MonC11) OnStepEnd(w *World, step int) {
 	}
 }
 
+// CheckStalled runs at the quiescent end of the history, before the end-state
+// phase closes the remaining connections.
+func (m *MonC11) CheckStalled(w *World) {
+	if st := stalledSubscriptions(w); len(st) > 0 {
+		m.violate(w, "subscription_stalled", "nothing is outstanding, yet subscriptions of open connections still hold events back (what they wait for was lost with a closed connection?): %s", trunc(strings.Join(st, ", "), 300))
+	}
+}
+
 func (m *MonC11) OnEnd(w *World) []Violation {
 	if m.hadWork {
 		m.nontriv = true
@@ -214,11 +222,22 @@ func init() {
 				p.Patterns = []string{">", "t.>", "t.a", "t.b"}
 				return p
 			}(),
+			func() *Profile {
+				// connections that close while their access re-checks wait in, or are
+				// outstanding under, a system reset's throttle
+				p := dataProfile("c11-throttled-reset", map[string]int{"close": 0, "call": 1, "auth": 0, "tokreset": 0, "token": 1, "httpget": 0, "sysreset": 30, "reaccess": 2, "custom": 4,
+					"mutate": 4, "silent": 0, "qmutate": 0, "qevent": 0, "subscribe": 24, "unsubscribe": 3, "get": 1, "answer": 36, "delete": 0, "new": 0})
+				p.MinOps, p.MaxOps, p.MaxConns, p.Prologue = 6, 16, 3, 100
+				p.Patterns = []string{">", "t.>"}
+				return p
+			}(),
 		},
 		Config: func(t *rapid.T, p *Profile) WorldConfig {
 			cfg := graphConfig(t, p)
 			cfg.Metrics = true
-			if rapid.IntRange(0, 2).Draw(t, "throttled") == 0 {
+			if p.Name == "c11-throttled-reset" {
+				cfg.ResetThrottle, cfg.ReferenceThrottle = rapid.IntRange(1, 2).Draw(t, "resetthrottle"), 0
+			} else if rapid.IntRange(0, 2).Draw(t, "throttled") == 0 {
 				cfg.ResetThrottle = rapid.IntRange(1, 2).Draw(t, "resetthrottle")
 				cfg.ReferenceThrottle = rapid.IntRange(0, 2).Draw(t, "refthrottle")
 			} else {
@@ -228,6 +247,11 @@ func init() {
 		},
 		Monitors: func() []Monitor { return []Monitor{NewMonC11(), NewMonC09(), NewMonC07(), NewMonC01()} },
 		End: func(w *World) {
+			for _, m := range w.Monitors {
+				if c, ok := m.(*MonC11); ok {
+					c.CheckStalled(w)
+				}
+			}
 			for _, m := range w.Monitors {
 				if c, ok := m.(*MonC09); ok {
 					c.EndState(w)
